@@ -113,7 +113,16 @@ def _worker(args):
     t0 = time.time()
     acc = mod.run_shard(shard)
     acc.info["_shard_s"] = time.time() - t0
+    for lst in acc.violations.values():
+        for v in lst:
+            v.shard = shard  # context for violations that depend on state built up within the shard
     return acc
+
+
+def _shard_sigs(args):
+    """Run one shard in a fresh process and return the violation signatures it produces."""
+    acc = _worker(args)
+    return sorted(acc.violations)
 
 
 def run_check(prop: str, tier: str, seed: int, only: str = "", budget: float = 0.0, procs: int = 0):
@@ -142,7 +151,9 @@ def run_check(prop: str, tier: str, seed: int, only: str = "", budget: float = 0
     probe = [order[0], order[-1]] if len(order) > 1 else [order[0]]
     digests = {}
     harness_errors = []
-    with ctx.Pool(min(procs, len(order) + len(probe))) as pool:
+    # maxtasksperchild=1: every shard runs in a freshly forked process, so state hidden in the implementation
+    # (module-level caches, objects corrupted in place) never leaks from one shard into another
+    with ctx.Pool(min(procs, len(order) + len(probe)), maxtasksperchild=1) as pool:
         probe_async = [pool.apply_async(_worker, ((modname, s),)) for s in probe]
         it = pool.imap(_worker, [(modname, s) for s in order], chunksize=1)
         for i in range(len(order)):
@@ -229,6 +240,47 @@ def finish(prop, mod, tier, seed, total, wall, nshards, done, harness_errors):
                 unconfirmed.append((sig, v, path))
         elif not is_known:
             confirmed.append((sig, v, path))
+    # Violations that need the state built up by earlier cases of their shard: re-run the whole shard in a
+    # fresh process (a shard is a deterministic program on fresh objects); if the signature appears again it is
+    # confirmed, and its replay file replays the shard.
+    if unconfirmed:
+        import multiprocessing as mp
+
+        still = []
+        by_shard = {}
+        for item in unconfirmed:
+            sh = getattr(item[1], "shard", None)
+            if sh is None:
+                still.append(item)
+            else:
+                by_shard.setdefault(json.dumps(sh, sort_keys=True, default=str), (sh, []))[1].append(item)
+        ctx = mp.get_context("fork")
+        for key, (sh, items) in list(by_shard.items())[:8]:
+            try:
+                with ctx.Pool(1, maxtasksperchild=1) as pool:
+                    s1 = pool.apply(_shard_sigs, ((CHECKS[prop], sh),))
+                with ctx.Pool(1, maxtasksperchild=1) as pool:
+                    s2 = pool.apply(_shard_sigs, ((CHECKS[prop], sh),))
+            except Exception as e:  # noqa: BLE001
+                harness_errors.append(f"shard replay crashed: {type(e).__name__}: {e}")
+                still.extend(items)
+                continue
+            if s1 != s2:
+                harness_errors.append(f"shard {sh!r} not deterministic in fresh processes")
+                still.extend(items)
+                continue
+            for sig, v, path in items:
+                if sig in s1:
+                    data = json.loads(Path(path).read_text())
+                    data["shard"] = sh
+                    data["mode"] = "shard"
+                    Path(path).write_text(json.dumps(data, indent=1, default=str))
+                    confirmed.append((sig, v, path))
+                else:
+                    still.append((sig, v, path))
+        for key, (sh, items) in list(by_shard.items())[8:]:
+            still.extend(items)
+        unconfirmed = still
     if unconfirmed and not confirmed:
         for sig, v, path in unconfirmed[:5]:
             harness_errors.append(f"replay of {sig} did not reproduce it and no other violation was confirmed")
@@ -321,7 +373,12 @@ def run_replay(prop: str, path: str):
     mod = importlib.import_module(CHECKS[prop])
     data = json.loads(Path(path).read_text())
     case = data["case"] if "case" in data else data
-    res = mod.replay(case)
+    if data.get("mode") == "shard":
+        # the violation needs the state built up by the earlier cases of its shard: replay the whole shard
+        acc = mod.run_shard(data["shard"])
+        res = [(sig, lst[0].detail) for sig, lst in acc.violations.items() if sig == data.get("sig")]
+    else:
+        res = mod.replay(case)
     known, _ = load_findings(prop)
     rc = EXIT_OK
     if not res:
